@@ -357,7 +357,9 @@ class BufferedSocket:
                 msg = ('read %s bytes without finding delimiter: %r'
                        % (len(recvd), delimiter))
                 raise Timeout(timeout, msg)  # check the recv buffer
-            except Exception:
+            except BaseException:
+                # incl. KeyboardInterrupt, gevent.Timeout, etc: never
+                # drop bytes that were already received
                 self.rbuf = bytes(recvd)
                 raise
             val, self.rbuf = bytes(recvd[:offset]), bytes(recvd[rbuf_offset:])
@@ -406,8 +408,9 @@ class BufferedSocket:
                 self.rbuf = b''.join(chunks)
                 msg = f'read {total_bytes} of {size} bytes'
                 raise Timeout(timeout, msg)  # check recv buffer
-            except Exception:
+            except BaseException:
                 # received data is still buffered in the case of errors
+                # (incl. KeyboardInterrupt, gevent.Timeout, etc.)
                 self.rbuf = b''.join(chunks)
                 raise
             extra_bytes = total_bytes - size
